@@ -202,8 +202,24 @@ class MemSizeAlgebra:
         return parts
 
     def results(self, body):
-        """[(conds, ret term, PathResult)] for each normal path"""
+        """[(conds, ret term, PathResult)] for each normal path.  A call to a private helper that the term evaluator could not inline
+        (several paths, e.g. a match on a lock result) is resolved by evaluating the body with that helper inlined at MIR level."""
         out = []
         for r in self.te.all_results(body, max_paths=64):
             out.append((r.conds, r.ret, r))
+        helpers = set()
+        for (_c, ret, _r) in out:
+            for t in subterms(ret):
+                if isinstance(t, tuple) and t and t[0] == "call" and isinstance(t[1], str):
+                    fb = self.f.body(norm(t[1])) or self.f.body(t[1])
+                    if fb is not None and fb.path not in self.te.no_inline and not fb.is_closure:
+                        helpers.add(fb.path)
+        if helpers and "#inl" not in body.path:
+            try:
+                from .inline import derive
+                b2, inl = derive(self.ctx, body, lambda tg: tg.path in helpers, depth=2)
+            except Exception:
+                inl = []
+            if inl:
+                out = [(r.conds, r.ret, r) for r in self.te.all_results(b2, max_paths=64)]
         return out
